@@ -62,7 +62,9 @@ func checkC16(e *Engine, r *Report) {
 		}
 		r.Check(mustPass(sub, sv, gH), "SubmitProof › proofs are final", e.Pos(sv.Pos()), "HasProof(msg.Account) ⇒ error", "an existing proof can be overwritten")
 		// fee
-		send := callsIn(sub, false, func(c ssa.CallInstruction) bool { return isBankCall(c, map[string]bool{"SendCoinsFromAccountToModule": true}) })
+		send := callsIn(sub, false, func(c ssa.CallInstruction) bool {
+			return isBankCall(c, map[string]bool{"SendCoinsFromAccountToModule": true})
+		})
 		burn := callsIn(sub, false, func(c ssa.CallInstruction) bool { return isBankCall(c, map[string]bool{"BurnCoins": true}) })
 		if len(send) != 1 || len(burn) != 1 {
 			r.Bad("SubmitProof › fee", e.Pos(sub.Pos()), "the handler does not move the fee to the module and burn it (one SendCoinsFromAccountToModule, one BurnCoins)")
